@@ -15,7 +15,8 @@ var vErrInjected = errors.New("injected failure")
 
 // H_C15_load: the real stream.Open with arbitrary (stored seqno, high seqno)
 // per vBucket and up to two injected failures among {config snapshot, store
-// load, seqno query, failover-log query of vb0/vb1, stream open of vb0/vb1}.
+// load, seqno query, failover-log query of vb0/vb1, stream open of vb0/vb1,
+// a load result that lacks an assigned vBucket}.
 // The client must terminate iff some documented guard holds; otherwise every
 // assigned vBucket was requested, from a position the server has reached.
 func H_C15_load() {
@@ -37,9 +38,9 @@ func H_C15_load() {
 			fx.fm.store[uint16(vb)] = d
 		}
 	}
-	var fail [8]bool
-	fail[choose("failA", 8)] = true
-	fail[choose("failB", 8)] = true
+	var fail [9]bool
+	fail[choose("failA", 9)] = true
+	fail[choose("failB", 9)] = true
 	// index 0 = no failure
 	if fail[1] {
 		fx.cl.snapErr = vErrInjected
@@ -49,6 +50,11 @@ func H_C15_load() {
 	}
 	if fail[3] {
 		fx.cl.seqErr = vErrInjected
+	}
+	if fail[8] {
+		// the backend answers, but its result lacks an assigned vBucket (file written for a narrower assignment, custom backend)
+		fx.fm.loadSkip = func(vbID uint16) bool { return vbID == 1 }
+		cover("partial-load")
 	}
 	fx.cl.foErr = func(vbID uint16) error {
 		if fail[4+int(vbID)] {
@@ -62,9 +68,13 @@ func H_C15_load() {
 		}
 		return nil
 	}
+	if fail[8] {
+		has[1] = false
+	}
 	latestBranch := latest && !has[0] && !has[1]
 	ahead := !latestBranch && ((has[0] && docSeq[0] > fx.cl.high[0]) || (has[1] && docSeq[1] > fx.cl.high[1]))
-	guard := fail[1] || fail[2] || fail[3] || (latestBranch && (fail[4] || fail[5])) || ahead || fail[6] || fail[7]
+	foFail := latestBranch && (fail[4] || (fail[5] && !fail[8]))
+	guard := fail[1] || fail[2] || fail[3] || foFail || ahead || fail[6] || fail[7] || fail[8]
 	if ahead {
 		cover("checkpoint-ahead")
 	}
